@@ -90,6 +90,12 @@ func (c *regexpSimplifyChecker) simplify(pass int, pat string) string {
 		return ""
 	}
 
+	if c.hasQuantifiedFlagGroup(re.Expr) {
+		// `x*(?i){0}`: Go applies a quantifier that follows a flag-only group
+		// to the preceding expression; we can't print such patterns faithfully.
+		return ""
+	}
+
 	c.score = 0
 	c.out.Reset()
 
@@ -285,6 +291,23 @@ func (c *regexpSimplifyChecker) walkCharClassArgs(args []syntax.Expr) {
 		}
 		c.walk(e)
 	}
+}
+
+// hasQuantifiedFlagGroup reports whether e contains a flag-only group
+// like `(?i)` that is followed by a quantifier.
+func (c *regexpSimplifyChecker) hasQuantifiedFlagGroup(e syntax.Expr) bool {
+	switch e.Op {
+	case syntax.OpStar, syntax.OpPlus, syntax.OpQuestion, syntax.OpRepeat, syntax.OpNonGreedy:
+		if e.Args[0].Op == syntax.OpFlagOnlyGroup {
+			return true
+		}
+	}
+	for _, a := range e.Args {
+		if c.hasQuantifiedFlagGroup(a) {
+			return true
+		}
+	}
+	return false
 }
 
 // hasCapture reports whether e contains a capturing group.
